@@ -1,6 +1,6 @@
 (* GENERATED from pyrepseq/nn.py (_cal_custom_dist, the parameter tuple of _to_triplets) by translate/regen_c11b.py on every check; do not edit. *)
 From Coq Require Import List Arith Bool.
-From PV Require Import lib.Str lib.PySorted.
+From PV Require Import lib.Str lib.PyDict lib.PySorted.
 Import ListNotations.
 Section GenKdRow.
 Context {D : Type}.
@@ -20,3 +20,11 @@ Definition gen_cal_custom_dist (seqs : list str) (max_edits : nat) (limit : opti
   let ans := py_sorted leD (fun x_ : nat * nat * D => snd x_) (filter (gen_distance_filter seqs max_edits max_cust_dist query) ans) in
   match limit with None => ans | Some m_ => firstn m_ ans end.
 End GenKdRow.
+
+(* _cal_levenshtein: default and Hamming mode; `hamming` / `levenshtein` are rapidfuzz's distances, `extract` the vocabulary rf_extract *)
+Definition gen_cal_levenshtein (hamming levenshtein : str -> str -> nat) (seqs : list str) (max_edits : nat) (limit : option nat)
+  (is_hamming : bool) (i : nat) (y_indices : list nat) : list (nat * nat * nat) :=
+  let scorer := if is_hamming then hamming else levenshtein in
+  let choices := filter (fun y_ => negb (Nat.eqb y_ i)) y_indices in
+  let result := rf_extract scorer (nth i seqs []) (map (fun c_ => nth c_ seqs []) choices) max_edits limit in
+  fold_left (fun ans r_ => ans ++ [(i, nth (snd r_) choices 0, snd (fst r_))]) result [].
